@@ -70,6 +70,20 @@ func AtomicEnter() {
 	}
 }
 
+// AtomicLevel selects the granularity: regions declared with level <= AtomicLevel run as
+// one step. Level 0 regions are always atomic; harnesses lower AtomicLevel for finer
+// (thorough) exploration.
+var AtomicLevel = 1
+
+// AtomicRegion is what the instrumenter inserts: `defer vsched.AtomicRegion(l)()`.
+func AtomicRegion(level int) func() {
+	if !Active() || level > AtomicLevel {
+		return func() {}
+	}
+	AtomicEnter()
+	return AtomicLeave
+}
+
 func AtomicLeave() {
 	if Active() && s.cur != nil && s.cur.atomic > 0 {
 		s.cur.atomic--
